@@ -118,3 +118,33 @@ package parsepasses
 //@   noterm
 //@   modifies *
 //@   ensures[loop-variable-leaves-scope-with-its-loop;C07] len(tc.forVars) == old(len(tc.forVars))
+
+// every template of the registry goes through the globals pass; the first
+// failure ends it with an error.
+//@ func SetGlobals
+//@   props C01
+//@   nosafety
+//@   noterm
+//@   modifies *
+//@   ghost visited int = 0
+//@   at call parsepasses.SetNodeGlobals#0 assert[template-body-with-the-bundles-globals;C01] arg1 == globals
+//@   at call parsepasses.SetNodeGlobals#0 after set visited = visited + 1
+//@   ensures[every-template-visited;C01] result == nil ==> visited == len(reg.Templates)
+//@   loop 0
+//@     invariant[visited-so-far;C01] visited == rangeindex + 1 && visited <= len(reg.Templates)
+
+// the message pass reaches every {msg} of a template: it descends into every
+// child of every node that has children.
+//@ func processTemplateMsgs
+//@   props C13
+//@   nosafety
+//@   noterm
+//@   modifies *
+//@   ghost visited int = 0
+//@   ghost nchildren int = -1
+//@   at call ast.ParentNode.Children#0 after set nchildren = len(res)
+//@   at call parsepasses.processTemplateMsgs#0 after set visited = visited + 1
+//@   at call soymsg.SetPlaceholdersAndID#0 assert[ids-for-this-message;C13] arg0 == unbox(node, *ast.MsgNode)
+//@   ensures[every-child-visited;C13] implements(node, ast.ParentNode) && !typeis(node, *ast.MsgNode) ==> visited == nchildren
+//@   loop 0
+//@     invariant[children-visited-so-far;C13] visited == rangeindex + 1 && visited <= nchildren
